@@ -66,6 +66,8 @@ type mBridge struct {
 	Paid       map[string]bool     // tuple key -> paid
 	Ledger     map[string]math.Int // denom -> deposits - claims + direct sends
 	Pairs      map[string]string   // l2 denom -> l1 denom (first registration)
+	LastPropose *ophosttypes.MsgProposeOutput // the last accepted proposal message (for exact replays)
+	LastProposeOut *mOutput
 	FormerProp []string
 	FormerChal []string
 }
@@ -77,6 +79,7 @@ type l1Cfg struct {
 	badCfgProb    int             // percent of creations with an invalid config
 	withFee       bool
 	noAutoAdvance bool
+	manyBridges   bool // sometimes start from a chain that already has dozens of bridges
 	offsets       []time.Duration // offsets around a finalization boundary that "advance" jumps to
 }
 
@@ -94,6 +97,7 @@ type l1World struct {
 	stats   map[string]int
 	// deposits to ids that had no bridge at the time, per id (D2 class)
 	ghostDeposits map[uint64]int
+	active        []uint64 // when set, operations pick their bridge from this subset
 }
 
 type l1Step struct {
@@ -130,6 +134,26 @@ func newL1World(rt *rapid.T, cfg l1Cfg) *l1World {
 	big, _ := math.NewIntFromString("147573952589676412928") // 2^67
 	e.Fund(w.users[0].Addr, sdk.NewCoin("uinit", big))
 	w.feePool = authtypes.NewModuleAddress(distributiontypes.ModuleName)
+	if cfg.manyBridges && rapid.IntRange(0, 7).Draw(rt, "many") == 0 {
+		// a chain that already hosts many bridges: operations then work on the first two and the last two
+		n := rapid.IntRange(65, 140).Draw(rt, "nbridges")
+		for i := 0; i < n; i++ {
+			p, ch := w.users[i%len(w.users)], w.users[(i+1)%len(w.users)]
+			period := cfg.periods[i%len(cfg.periods)]
+			r := e.Deliver(ophosttypes.NewMsgCreateBridge(p.Str, henv.DefaultBridgeConfig(p.Str, ch.Str, period)))
+			if !r.OK() {
+				panic(r.Err)
+			}
+			id := r.Resp.(*ophosttypes.MsgCreateBridgeResponse).BridgeId
+			w.bridges[id] = &mBridge{ID: id, Proposer: p.Str, Challenger: ch.Str, Period: period, NextSeq: 1, NextWdSeq: 1,
+				Paid: map[string]bool{}, Ledger: map[string]math.Int{}, Pairs: map[string]string{}}
+			w.ids = append(w.ids, id)
+			w.nextID = id + 1
+		}
+		w.active = []uint64{1, 2, uint64(n - 1), uint64(n)}
+		w.cfg.maxBridges = n + 2
+		w.logf("chain starts with %d bridges; active %v", n, w.active)
+	}
 	if cfg.withFee && rapid.Bool().Draw(rt, "fee") {
 		w.fee = sdk.NewCoins(sdk.NewCoin("uinit", math.NewInt(100)))
 		p := ophosttypes.NewParams(w.fee...)
@@ -150,6 +174,9 @@ func (w *l1World) anyBridge(rt *rapid.T) *mBridge {
 	if len(w.ids) == 0 {
 		return nil
 	}
+	if len(w.active) > 0 {
+		return w.bridges[w.active[rapid.IntRange(0, len(w.active)-1).Draw(rt, "bridge")]]
+	}
 	return w.bridges[w.ids[rapid.IntRange(0, len(w.ids)-1).Draw(rt, "bridge")]]
 }
 
@@ -159,10 +186,16 @@ func (w *l1World) knownAccounts() []sdk.AccAddress {
 	for _, u := range w.users {
 		out = append(out, u.Addr)
 	}
-	for id := uint64(1); id <= w.nextID+2; id++ {
-		out = append(out, ophosttypes.BridgeAddress(id))
+	if len(w.active) > 0 {
+		for _, id := range w.watchIDs() {
+			out = append(out, escrowAddr(id))
+		}
+		return append(out, w.feePool)
 	}
-	out = append(out, ophosttypes.BridgeAddress(77), w.feePool)
+	for id := uint64(1); id <= w.nextID+2; id++ {
+		out = append(out, escrowAddr(id))
+	}
+	out = append(out, escrowAddr(77), w.feePool)
 	return out
 }
 
@@ -213,7 +246,11 @@ func (w *l1World) opCreate(rt *rapid.T, forceValid ...bool) *l1Step {
 	period := w.cfg.periods[rapid.IntRange(0, len(w.cfg.periods)-1).Draw(rt, "period")]
 	cfg := henv.DefaultBridgeConfig(prop.Str, chal.Str, period)
 	cfg.BatchInfo.Submitter = w.user(rt, "submitter").Str
+	cfg.Metadata = drawMetadataBytes(rt)
 	expect := "valid"
+	if len(cfg.Metadata) > ophosttypes.MaxMetadataLength {
+		expect = "invalid"
+	}
 	if len(forceValid) == 0 && rapid.IntRange(0, 99).Draw(rt, "badcfg") < w.cfg.badCfgProb {
 		switch rapid.IntRange(0, 5).Draw(rt, "badkind") {
 		case 0:
@@ -242,6 +279,9 @@ func (w *l1World) opCreate(rt *rapid.T, forceValid ...bool) *l1Step {
 		w.bridges[id] = b
 		w.ids = append(w.ids, id)
 		w.nextID = id + 1
+		if len(w.active) > 0 {
+			w.active = append(w.active, id)
+		}
 	}
 	w.logf("create(by=%s period=%v expect=%s) -> id=%d err=%v", short(creator.Str), cfg.FinalizationPeriod, expect, st.Bridge, st.Res.Err)
 	return st
@@ -309,7 +349,7 @@ func (w *l1World) opDeposit(rt *rapid.T) *l1Step {
 	msg := ophosttypes.NewMsgInitiateTokenDeposit(sender.Str, id, to, coin, data)
 	_, existed := w.bridges[id]
 	st := &l1Step{Kind: "deposit", Bridge: id, Signer: sender.Str, Msg: msg, Existed: existed, Amount: coin,
-		Allowed: []sdk.AccAddress{sender.Addr, ophosttypes.BridgeAddress(id)}}
+		Allowed: []sdk.AccAddress{sender.Addr, escrowAddr(id)}}
 	st.Res = w.e.Deliver(msg)
 	if st.Res.OK() {
 		if b, ok := w.bridges[id]; ok {
@@ -428,6 +468,20 @@ func (w *l1World) opPropose(rt *rapid.T) *l1Step {
 	case "max":
 		l2b = ^uint64(0)
 	}
+	if b.LastPropose != nil && len(b.Outputs) > 0 && rapid.IntRange(0, 11).Draw(rt, "replaylast") == 0 {
+		// the proposer's last transaction is delivered a second time, byte for byte
+		msg := *b.LastPropose
+		st := &l1Step{Kind: "propose", Bridge: b.ID, Signer: msg.Proposer, Msg: &msg, OutIndex: msg.OutputIndex, Expect: "replay"}
+		st.Res = w.e.Deliver(&msg)
+		w.logf("propose(bridge=%d exact replay of the last accepted proposal index=%d next=%d) -> err=%v", b.ID, msg.OutputIndex, next, st.Res.Err)
+		if st.Res.OK() {
+			// the model follows the chain; C11 judges the acceptance
+			last := *b.LastProposeOut
+			last.Index, last.At, last.Height = msg.OutputIndex, w.e.Ctx.BlockTime(), w.e.Ctx.BlockHeight()
+			b.Outputs = append(b.Outputs, &last)
+		}
+		return st
+	}
 	o := buildOutput(w.drawTuples(rt, b), byte(rapid.IntRange(0, 2).Draw(rt, "version")), rapid.SliceOfN(rapid.Byte(), 32, 32).Draw(rt, "blockhash"))
 	msg := ophosttypes.NewMsgProposeOutput(signer, b.ID, index, l2b, append([]byte{}, o.Root[:]...))
 	st := &l1Step{Kind: "propose", Bridge: b.ID, Signer: signer, Msg: msg, OutIndex: index}
@@ -437,6 +491,7 @@ func (w *l1World) opPropose(rt *rapid.T) *l1Step {
 		// model follows the chain: an accepted proposal is appended (C11 asserts index == next)
 		b.Outputs = append(b.Outputs, o)
 		st.Out = o
+		b.LastPropose, b.LastProposeOut = msg, o
 	}
 	w.logf("propose(bridge=%d by=%s(%s) index=%d next=%d l2block=%d prev=%d leaves=%d) -> err=%v", b.ID, short(signer), sk, index, next, l2b, prev, len(o.Tuples), st.Res.Err)
 	return st
@@ -529,7 +584,7 @@ func (w *l1World) opClaim(rt *rapid.T) *l1Step {
 	t := o.Tuples[pos]
 	index := o.Index
 	okBuilt := true
-	variant := drawWeighted(rt, "claimkind", []weighted{{"valid", 14}, {"otherindex", 2}, {"otherbridge", 2}, {"foreign", 1}})
+	variant := drawWeighted(rt, "claimkind", []weighted{{"valid", 14}, {"otherindex", 2}, {"otherbridge", 2}, {"foreign", 1}, {"respell", 2}})
 	switch variant {
 	case "otherindex":
 		// same proof material offered against another index of the same bridge
@@ -543,6 +598,10 @@ func (w *l1World) opClaim(rt *rapid.T) *l1Step {
 			t.Bridge = ob.ID
 			okBuilt = false
 		}
+	case "respell":
+		// the same account under another valid spelling of its address: not the committed withdrawal
+		t.To = strings.ToUpper(t.To)
+		okBuilt = false
 	case "foreign":
 		// a tuple that is in the pool but not in this tree
 		if len(b.Pool) > 0 {
@@ -560,7 +619,7 @@ func (w *l1World) opClaim(rt *rapid.T) *l1Step {
 	toAddr, _ := sdk.AccAddressFromBech32(t.To)
 	st := &l1Step{Kind: "claim", Bridge: t.Bridge, Signer: submitter.Str, Msg: msg, Tuple: &t, OutIndex: index, Out: o,
 		OutLive: live && index == o.Index, ClaimOK: okBuilt && live, Expect: variant,
-		Allowed: []sdk.AccAddress{ophosttypes.BridgeAddress(t.Bridge), toAddr}}
+		Allowed: []sdk.AccAddress{escrowAddr(t.Bridge), toAddr}}
 	st.Res = w.e.Deliver(msg)
 	if st.Res.OK() {
 		if tb, ok := w.bridges[t.Bridge]; ok {
@@ -623,13 +682,13 @@ func (w *l1World) opSend(rt *rapid.T) *l1Step {
 		to = w.user(rt, "to").Addr
 	case 1, 2:
 		if b := w.anyBridge(rt); b != nil {
-			to, target = ophosttypes.BridgeAddress(b.ID), b.ID
+			to, target = escrowAddr(b.ID), b.ID
 		} else {
 			to = w.user(rt, "to2").Addr
 		}
 	case 3:
 		target = w.nextID
-		to = ophosttypes.BridgeAddress(target) // escrow of a bridge that does not exist yet
+		to = escrowAddr(target) // escrow of a bridge that does not exist yet
 	}
 	denom := w.denoms[rapid.IntRange(0, len(w.denoms)-1).Draw(rt, "denom")]
 	amt := math.NewInt(int64(rapid.IntRange(1, 1_000_000).Draw(rt, "amt")))
@@ -697,7 +756,7 @@ func (w *l1World) opRole(rt *rapid.T) *l1Step {
 	case "batch":
 		msg = ophosttypes.NewMsgUpdateBatchInfo(signer, b.ID, ophosttypes.BatchInfo{Submitter: nu.Str, ChainType: ophosttypes.BatchInfo_ChainType(rapid.IntRange(1, 2).Draw(rt, "chain"))})
 	case "metadata":
-		msg = ophosttypes.NewMsgUpdateMetadata(signer, b.ID, rapid.SliceOfN(rapid.Byte(), 0, 16).Draw(rt, "md"))
+		msg = ophosttypes.NewMsgUpdateMetadata(signer, b.ID, drawMetadataBytes(rt))
 	case "oracle":
 		msg = ophosttypes.NewMsgUpdateOracleConfig(signer, b.ID, rapid.Bool().Draw(rt, "oracle"))
 	}
@@ -750,3 +809,28 @@ func parseCoins(s string) (sdk.Coins, error) {
 }
 
 func coinOf(denom string, n int64) sdk.Coin { return sdk.NewCoin(denom, math.NewInt(n)) }
+
+// escrowAddr is where the escrow of a bridge must live according to the documented derivation
+// (independent implementation): the checks never ask the code under test for the address.
+func escrowAddr(id uint64) sdk.AccAddress { return sdk.AccAddress(ref.BridgeAddress(id)) }
+
+// drawMetadataBytes: mostly a few bytes, sometimes exactly at / around the documented maximum length.
+func drawMetadataBytes(rt *rapid.T) []byte {
+	switch rapid.IntRange(0, 11).Draw(rt, "mdlen") {
+	case 0:
+		return bytesOfLen(ophosttypes.MaxMetadataLength)
+	case 1:
+		return bytesOfLen(ophosttypes.MaxMetadataLength - 1)
+	case 2:
+		return bytesOfLen(ophosttypes.MaxMetadataLength + 1)
+	}
+	return rapid.SliceOfN(rapid.Byte(), 0, 16).Draw(rt, "md")
+}
+
+func bytesOfLen(n int) []byte {
+	b := make([]byte, n)
+	for i := range b {
+		b[i] = byte('a' + i%26)
+	}
+	return b
+}
